@@ -16,6 +16,11 @@ PANIC_FNS = ("core::panicking::", "std::rt::begin_panic")
 K2_FNS = ("split_at", "split_at_mut", "copy_from_slice", "copy_within", "rotate_left", "rotate_right", "splice", "drain", "swap", "chunks", "chunks_exact",
           "windows", "swap_remove", "remove", "insert", "split_off", "clone_from_slice")
 ALLOC_FNS = ("with_capacity", "from_elem", "resize", "reserve", "reserve_exact", "resize_with")
+# std functions with a documented panicking contract on their ARGUMENTS (not covered by a MIR assert of the caller): what must hold
+CONTRACT_FNS = {"clamp": "min <= max and neither is NaN", "rem_euclid": "non-zero divisor", "div_euclid": "non-zero divisor", "step_by": "non-zero step",
+                "ilog2": "non-zero argument", "ilog10": "non-zero argument", "ilog": "non-zero argument", "rchunks": "non-zero chunk size",
+                "rchunks_exact": "non-zero chunk size", "chunks_mut": "non-zero chunk size", "chunks_exact_mut": "non-zero chunk size", "from_digit": "radix <= 36",
+                "to_digit": "radix <= 36", "array_chunks": "non-zero chunk size", "next_power_of_two": "no overflow", "isqrt": "non-negative argument"}
 ALLOC_LIMIT = 1 << 26   # 64 Mi elements: above this an unguarded tainted size is "out of proportion to the file"
 LOOP_LIMIT = 1 << 16
 
@@ -61,6 +66,8 @@ def sites_of(b):
                 out.append(Site(b, bi, "slicefn", seg, t["span"], t.get("mac")))
             elif seg in ALLOC_FNS and ("Vec" in n or "String" in n or "vec::from_elem" in n or "HashMap" in n):
                 out.append(Site(b, bi, "alloc", seg, t["span"], t.get("mac")))
+            elif seg in CONTRACT_FNS and not t.get("resolved_local") and n.startswith(("core::", "std::", "alloc::")):
+                out.append(Site(b, bi, "contract", seg, t["span"], t.get("mac")))
             elif seg == "take" and "Repeat" in (t.get("callee_full", "") + t.get("resolved_full", "")):
                 out.append(Site(b, bi, "alloc", "repeat-take", t["span"], t.get("mac")))
     # ordinal keys
@@ -194,7 +201,7 @@ class Census:
                     return self._auto(s, "constant index into a fixed-size array")
                 if ops[0][0] == "const" and iv.bound < ops[0][1].get("int", 0):
                     return self._auto(s, "index bounded by %s < array length %s" % (_fmt(iv.bound), ops[0][1].get("int")))
-                if self.GX(b, s.bb, idx, iv):
+                if self.GX(b, s.bb, idx, iv, arith=False):
                     return self._auto(s, "index compared before use")
                 if il is not None and self._induction_over_len(b, il, self._bounds_base(b, s.bb, ops[0]), s.bb):
                     return self._auto(s, "index is the induction variable of a range bounded by the length of the same collection")
@@ -226,6 +233,8 @@ class Census:
                 return self._open(s, "map index panics on a missing key", False)
             if s.detail == "range":
                 fl = self.flow(b)
+                if "RangeFull" in t["arg_tys"][1]["s"]:
+                    return self._auto(s, "`x[..]`: the whole slice, no bound to violate")
                 bounds = []
                 for d in fl.defs.get(il, []) if il is not None else []:
                     if d[0] == "assign" and d[2][0] == "aggregate" and "fields" in d[2][1]:
@@ -254,7 +263,7 @@ class Census:
                         okall = False
                     elif arr_n is not None and v.bound <= arr_n:
                         why.append("%s <= %d = array length" % (nm, arr_n))
-                    elif l is not None and (self.GX(b, s.bb, o, v) or self._from_search(b, l, bl)):
+                    elif l is not None and (self.GX(b, s.bb, o, v, arith=False) or self._from_search(b, l, bl)):
                         why.append("%s guarded" % nm)
                     else:
                         okall = False
@@ -267,7 +276,7 @@ class Census:
             m = re.search(r"\[\w+; (\d+)\]", base_ty)
             if m and v.bound < int(m.group(1)):
                 return self._auto(s, "index bounded by %s < array length %s" % (_fmt(v.bound), m.group(1)))
-            if v.g or il is not None and (T.guarded_exact(b, s.bb, t["args"][1]) or self._from_search(b, il, bl) or self._induction_over_len(b, il, bl, s.bb)):
+            if v.g or il is not None and (T.guarded_exact(b, s.bb, t["args"][1], arith=False) or self._from_search(b, il, bl) or self._induction_over_len(b, il, bl, s.bb)):
                 return self._auto(s, "index compared / searched / induction variable")
             ci = self.const_of(b, t["args"][1])
             if ci is not None:
@@ -305,6 +314,19 @@ class Census:
             if all(l is None or T.guarded_exact(b, s.bb, a) or self._from_search(b, l) for l, a in zip(ls, t["args"][1:])) and any(l is not None for l in ls):
                 return self._auto(s, "arguments compared / searched before the call")
             return self._open(s, "%s(%s) may panic" % (s.detail, ", ".join(map(str, vs))), any(v.taint for v in vs))
+        if s.kind == "contract":
+            args = t["args"][1:]
+            vs = [T.operand(b, a) for a in args]
+            if s.detail == "clamp":
+                cs = [self.const_of(b, a) if a[0] != "const" else a[1].get("int", a[1].get("float")) for a in args]
+                if len(args) == 2 and all(a[0] == "const" for a in args):
+                    return self._auto(s, "constant bounds")
+                return self._open(s, "clamp(min, max) panics when min > max or a bound is NaN (bounds: %s)" % ", ".join(map(str, vs)), any(v.taint for v in vs))
+            if args and args[0][0] == "const" and (args[0][1].get("int") or 0) != 0:
+                return self._auto(s, "constant argument satisfying the contract (%s)" % CONTRACT_FNS[s.detail])
+            if args and F.op_local(args[0]) is not None and self.GX(b, s.bb, args[0], vs[0]):
+                return self._auto(s, "argument compared before the call")
+            return self._open(s, "%s needs %s" % (s.detail, CONTRACT_FNS[s.detail]), any(v.taint for v in vs))
         if s.kind == "alloc":
             k = 1 if s.detail not in ("from_elem",) else 1
             if s.detail == "with_capacity":
@@ -321,7 +343,7 @@ class Census:
                 return self._auto(s, "size bounded by %s" % _fmt(v.bound))
             if not v.taint:
                 return self._auto(s, "size derives from in-memory data (proportional to the input)")
-            if self.GX(b, s.bb, t["args"][k], v):
+            if self.GX(b, s.bb, t["args"][k], v, upper=True):
                 return self._auto(s, "size compared before the allocation")
             return self._open(s, "allocation sized by %s" % v, True)
         if s.kind == "unwrap":
@@ -340,13 +362,13 @@ class Census:
             return True
         return l is not None and self.taint.guarded(b, bb, l)
 
-    def GX(self, b, bb, op, v=None):
+    def GX(self, b, bb, op, v=None, arith=True, upper=False):
         """the very value used (same expression) is compared / looked up before the site, or was in all callers"""
         if v is not None and v.g:
             return True
         if op is None:
             return False
-        return self.taint.guarded_exact(b, bb, op)
+        return self.taint.guarded_exact(b, bb, op, arith=arith, upper=upper)
 
     def const_of(self, b, op):
         if op[0] == "const":
@@ -392,8 +414,11 @@ class Census:
             for c in calls_:
                 if c[0] in ("try_into", "try_from"):
                     src = F.op_local(c[2]["args"][0])
-                    if src is not None and self._len_guarded(b, s.bb, src):
-                        return self._auto(s, "array conversion after a length test of the source")
+                    # the array length the conversion wants: `[T; N]` in the type of the result
+                    tys = c[2].get("callee_full", "") + " " + c[2].get("resolved_full", "") + " " + (b["locals"][c[2]["dest"][0]]["s"] if c[2].get("dest") else "")
+                    mm = re.search(r"\[[^\[\];]+; (\d+)\]", tys)
+                    if src is not None and mm and self._len_is(b, s.bb, src, int(mm.group(1))):
+                        return self._auto(s, "array conversion after a test that leaves exactly %s elements" % mm.group(1))
         if "last_mut" in names or "last" in names or "first" in names or "first_mut" in names:
             for c in calls_:
                 if c[0] in ("last_mut", "last", "first", "first_mut"):
@@ -801,6 +826,14 @@ class Census:
                             return True
         return False
 
+    def _len_is(self, b, site_bb, base_local, n):
+        """a deciding test on the way to the site leaves exactly len == n (`if v.len() != 2 { bail }`, `match v.len() { 2 => .. }`)"""
+        self._exact_len = set()
+        self._len_lb(b, site_bb, base_local, True, 0)
+        return n in self._exact_len
+
+    _exact_len = set()
+
     def _len_guarded(self, b, site_bb, base_local, need=None):
         best = self._len_lb(b, site_bb, base_local, need is not None, 0)
         if best is None:
@@ -888,6 +921,8 @@ class Census:
                         if (tg == site_bb or site_bb in cfg.reachable_from(tg, avoid={ci})) and \
                                 not any(o != tg and o is not None and (o == site_bb or site_bb in cfg.reachable_from(o, avoid={ci})) for o in list(tgts) + [tt.get("otherwise")]):
                             lb = min(vals)
+                            if len(vals) == 1:
+                                self._exact_len.add(vals[0])
                             best = lb if best is None else max(best, lb)
                 for st in cb["stmts"]:
                     if not (st[0] == "assign" and st[2][0] == "binop" and st[2][1] in ("Lt", "Le", "Gt", "Ge", "Eq", "Ne")):
@@ -926,6 +961,8 @@ class Census:
                         lb = {"Eq": k, "Ge": k, "Gt": k + 1}.get(op, 0)
                     else:
                         lb = {"Ne": k, "Lt": k, "Le": k + 1}.get(op, 0)
+                    if (op == "Eq" and on_true) or (op == "Ne" and not on_true):
+                        self._exact_len.add(k)          # on the way to the site the length IS k
                     best = lb if best is None else max(best, lb)
         return best
 
